@@ -45,23 +45,61 @@ def prov_atom_names(repo, tier="quick"):
                           reason="names are element plus a running index, hence unique within each coarse node")) if ok else
          obs.append(ob_fail(oid, fi, n.ast, construct=why, instance="name", reason="atom names are not `element + running index within the coarse node`")))
     # the lists being enumerated: all nodes of the coarse node's graph (meta graph given) or all nodes with that fragid
-    lists_ok = 0
-    for call, nid in fl.calls():
-        ct = fl.canon(call, nid)
-        m = method_call(ct, "append")
-        if m and len(m[2]) == 1:
-            e = elem_of(m[2][0])
-            if e and e[0] == "key":
-                lists_ok += 1
+    meta = ("param", fi.positional_params[1]) if len(fi.positional_params) > 1 else None
+    n_lists = 0
     for n in cfg.nodes:
         if n.kind == "stmt" and isinstance(n.ast, ast.AugAssign) and isinstance(n.ast.op, ast.Add) and isinstance(n.ast.target, ast.Subscript):
             v = fl.canon(n.ast.value, n.id)
-            c = is_call(v, "list")
             src = strip_wrappers(v)
-            if src[0] == "attr" and src[2] == "nodes":
-                lists_ok += 1
-    (obs.append(ob_ok(oid, fi, construct="per-coarse-node atom lists hold all atoms of the coarse node", instance="lists", reason="every atom is named")) if lists_ok >= 2 else
-     obs.append(ob_fail(oid, fi, construct="construction of the per-coarse-node atom lists", instance="lists", reason="the atom lists are not built from all atoms of each coarse node")))
+            if not (src[0] == "attr" and src[2] == "nodes"):
+                continue
+            n_lists += 1
+            G = src[1]
+            key = fl.canon(n.ast.target.slice, n.id)
+            na = node_attr(G)
+            ek = elem_of(key)
+            own = bool(na and meta and na[0] == meta and na[1] == key and na[2] == ("const", "graph") and ek and ek[0] == "elem" and
+                       strip_wrappers(ek[1]) in (("attr", meta, "nodes"), meta))
+            pols = []
+            for test, pol, gid in guards_of(fi, n.id):
+                t = fl.canon(test, gid)
+                if t in (G, meta) or (t[0] == "cmp" and t[1] in (("is not",), ("!=",)) and t[2][0] in (G, meta) and t[2][1] == ("const", None)):
+                    pols.append(pol)
+                elif t[0] == "cmp" and t[1] in (("is",), ("==",)) and t[2][0] in (G, meta) and t[2][1] == ("const", None):
+                    pols.append(not pol)
+                else:
+                    pols.append(None)
+            if own and pols and all(p is True for p in pols):
+                obs.append(ob_ok(oid, fi, n.ast, construct="atoms[meta_node] += list(meta_graph.nodes[meta_node]['graph'].nodes) when that graph exists", instance="lists:meta",
+                                 reason="with the coarse graph given, every atom of every coarse node that has atoms is named"))
+            elif any(p is None for p in pols):
+                obs.append(ob_undecided(oid, fi, n.ast, construct="atom list filled under a condition the rule cannot read", instance="lists:meta",
+                                        reason="cannot decide whether every coarse node's atoms are listed"))
+            else:
+                obs.append(ob_fail(oid, fi, n.ast, construct="atoms[%s] += list(%s.nodes) under guards %s" % (show(key), show(G), pols), instance="lists:meta",
+                                   reason="the atom list of a coarse node is not filled from that node's own per-node graph whenever it exists: atoms stay unnamed"))
+    for call, nid in fl.calls():
+        ct = fl.canon(call, nid)
+        m = method_call(ct, "append")
+        if m and len(m[2]) == 1 and m[0][0] == "sub":
+            e = elem_of(m[2][0])
+            key = m[0][2]
+            if not (e and e[0] == "key"):
+                continue
+            n_lists += 1
+            okk = key[0] == "sub" and key[2] in (("const", 0), ("const", -1))
+            ev = elem_of(key[1]) if okk else None
+            okk = bool(okk and ev and ev[0] == "value" and ev[1] == e[1])
+            c = is_call(strip_wrappers(e[1]), "networkx.get_node_attributes")
+            okk = okk and bool(c and c[0][:2] == (mol, ("const", "fragid")))
+            neg = [pol for test, pol, gid in guards_of(fi, nid) if meta and fl.canon(test, gid) == meta]
+            okk = okk and (not neg or all(p is False for p in neg))
+            (obs.append(ob_ok(oid, fi, call, construct="atoms[fragid(node)[0]].append(node) for every node of the molecule (no coarse graph given)", instance="lists:fragid",
+                              reason="without the coarse graph every atom is filed under its coarse node")) if okk else
+             obs.append(ob_fail(oid, fi, call, construct="atoms[%s].append(%s)" % (show(key), show(m[2][0])), instance="lists:fragid",
+                                reason="atoms are not filed under their own coarse node id")))
+    if n_lists < 2:
+        obs.append(ob_fail(oid, fi, construct="construction of the per-coarse-node atom lists", instance="lists", reason="the atom lists are not built from all atoms of each coarse node"))
     return obs
 
 
@@ -645,14 +683,36 @@ COMPLETE_LOOPS = [
     ("resolve:MoleculeResolver.read_fragment_strings", "fragment_strings", "every fragment level is read"),
     ("read_fragments:read_fragments", "fragment_iter", "every fragment definition is read"),
     ("cgsmiles_utils:find_open_bonds", "get_node_attributes(molecule, 'bonding')", "every open descriptor is indexed"),
+    ("graph_utils:annotate_fragments", "itertools.combinations", "every pair of a coarse node's atoms is tested for a bond"),
+    ("graph_utils:annotate_fragments", "[each(meta_graph.nodes)]", "every atom of the coarse node enters its per-node graph"),
+    ("graph_utils:sort_nodes_by_attr", "relative_attr", "every node-referencing attribute is translated"),
+    ("graph_utils:sort_nodes_by_attr", "networkx.get_node_attributes(networkx.relabel_nodes", "every entry of the attribute is translated"),
+    ("graph_utils:set_atom_names_atomistic", "enumerate(", "every atom of the coarse node is named"),
+    ("graph_utils:set_atom_names_atomistic", "meta_graph.nodes", "the atoms of every coarse node are listed"),
+    ("pysmiles_utils:rebuild_h_atoms", "copy_attrs", "every listed attribute is inherited by the hydrogen"),
+    ("pysmiles_utils:rebuild_h_atoms", "get_node_attributes(mol_graph, 'bonding')", "the hydrogen count of every atom with open descriptors is reduced"),
+]
+
+COMPLETE_LOOPS_MASS = [
+    ("pysmiles_utils:compute_mass", ".nodes", "every atom contributes its mass"),
+]
+
+COMPLETE_LOOPS_RDKIT = [
+    ("rdkit:networkx_to_rdkit", "mol_graph.nodes", "every atom is added to the RDKit molecule"),
+    ("rdkit:networkx_to_rdkit", "mol_graph.edges", "every bond is added to the RDKit molecule"),
+    ("rdkit:rdkit_to_networkx", "GetAtoms()", "every RDKit atom becomes a node"),
+    ("rdkit:rdkit_to_networkx", "GetBonds()", "every RDKit bond becomes an edge"),
+    ("rdkit:embed_3d_via_rdkit", "GetAtoms()", "every atom gets its position"),
+    ("coordinates:forward_map_molecule", "cg_mol.nodes", "every bead gets a position"),
+    ("coordinates:forward_map_molecule", "'weight').items()", "every atom of the bead contributes"),
 ]
 
 
-def ord_complete_loops(repo, tier="quick"):
+def ord_complete_loops(repo, tier="quick", table=None):
     """Loops that have to visit every element of their collection contain no break / return."""
     obs = []
     oid = "ORD.complete-loops"
-    for fq, needle, what in COMPLETE_LOOPS:
+    for fq, needle, what in (table or COMPLETE_LOOPS):
         fi = repo.function(fq)
         fl, cfg = fi.flow, fi.cfg
         found = False
@@ -1112,3 +1172,161 @@ def _arm_nodes_of(cfg, ifnode):
             if x is not None:
                 out.add(x)
     return out
+
+
+# ---------------------------------------------------------------------------
+# PROV.slash-marks (C15): tokenizer -> fragment reader -> node attribute -> stereo annotation
+# ---------------------------------------------------------------------------
+
+def prov_slash_marks(repo, tier="quick"):
+    """The '/' and '\\' marks recorded by the fragment tokenizer are handed to the SMILES fragment reader, written as node
+    attribute on every path that returns a fragment of more than one atom, and read back under the same attribute name by
+    the stereo annotation that runs on the connected molecule."""
+    from .common import call_arg
+    obs = []
+    oid = "PROV.slash-marks"
+    # (a) hand-over from the tokenizer
+    callee = repo.function("pysmiles_utils:read_fragment_smiles")
+    fr = None
+    for cand in repo.module("read_fragments").functions.values():
+        if cand.flow.calls_to("pysmiles_utils:read_fragment_smiles", "read_fragment_smiles"):
+            fr = cand
+    need(fr is not None, "anchor vanished: nothing in read_fragments.py calls read_fragment_smiles", callee)
+    fl = fr.flow
+    need("ez_isomers" in callee.params, "anchor vanished: read_fragment_smiles has no parameter ez_isomers", callee)
+    pidx = callee.positional_params.index("ez_isomers")
+    sites = fl.calls_to("pysmiles_utils:read_fragment_smiles", "read_fragment_smiles")
+    need(sites, "anchor vanished: read_fragments does not call read_fragment_smiles", fr)
+    for call, nid, _ in sites:
+        a = call_arg(call, pidx, "ez_isomers")
+        t = fl.canon(a, nid) if a is not None else None
+        good = False
+        if t is not None and t[0] == "sub" and t[2] == ("const", 2):
+            c = t[1]
+            good = c[0] == "call" and c[2] == ("fn", "read_fragments:strip_bonding_descriptors")
+        (obs.append(ob_ok(oid, fr, call, construct="read_fragment_smiles(..., ez_isomers=strip_bonding_descriptors(..)[2])", instance="handover",
+                          reason="the marks found by the tokenizer reach the fragment reader")) if good else
+         obs.append(ob_fail(oid, fr, call, construct="read_fragment_smiles(..., ez_isomers=%s)" % (show(t) if t else "<default>"), instance="handover",
+                            reason="the slash marks of the fragment string are not handed to the fragment reader: cis/trans information is dropped")))
+    # (b)+(c) written on every multi-atom path
+    fi = callee
+    fl, cfg = fi.flow, fi.cfg
+    P = ("param", "ez_isomers")
+    writes = []
+    for call, nid, _ in fl.calls_to("networkx.set_node_attributes"):
+        ct = fl.canon(call, nid)
+        a = list(ct[3]) + [None] * 3
+        kw = dict(ct[4])
+        name = a[2] if a[2] is not None else kw.get("name")
+        vals = a[1] if a[1] is not None else kw.get("values")
+        if vals is not None and any(x == P for x in walk_term(vals)):
+            writes.append((call, nid, a[0], vals, name))
+    if not writes:
+        return obs + [ob_fail(oid, fi, construct="no set_node_attributes(graph, <from ez_isomers>, name)", instance="written",
+                              reason="the marks recorded by the tokenizer are not written on the fragment atoms")]
+    call, wnid, g, vals, wname = writes[0]
+    obs.append(ob_ok(oid, fi, call, construct="set_node_attributes(graph, {idx: mark}, %s) from ez_isomers" % (show(wname) if wname else "?"), instance="written",
+                     reason="the class marks are the ones recorded by the tokenizer"))
+    bad = []
+    for p, lab in cfg.pred[cfg.exit]:
+        if cfg.must_pass(cfg.entry, {p}, {wnid}) or p == wnid:
+            continue
+        n = cfg.nodes[p]
+        if not (n.kind == "stmt" and isinstance(n.ast, ast.Return)):
+            bad.append((n, "exit without return"))
+            continue
+        single = False
+        for test, pol, gid in guards_of(fi, p):
+            t = fl.canon(test, gid)
+            if pol and t[0] == "cmp" and t[1] == ("==",) and ("const", 1) in t[2]:
+                other = [x for x in t[2] if x != ("const", 1)]
+                if other and is_call(other[0], "len"):
+                    single = True
+        if not single:
+            bad.append((n, "return not controlled by `len(graph) == 1`"))
+    if bad:
+        for n, why in bad[:3]:
+            obs.append(ob_fail(oid, fi, n.ast, construct="return before the class marks are written (%s)" % why, instance="every-path",
+                               reason="a fragment of more than one atom can be returned without its slash marks; the mark of an atom describes the bond "
+                                      "to the neighbouring fragment too, so cis/trans annotations silently disappear"))
+    else:
+        obs.append(ob_ok(oid, fi, call, construct="every return of a multi-atom fragment passes the class-mark write", instance="every-path",
+                         reason="only the single-atom shortcut (len(graph) == 1) returns earlier"))
+    # (d) the reader of the attribute uses the same name
+    fa = repo.function("pysmiles_utils:annotate_ez_isomers_cgsmiles")
+    names = []
+    for c2, n2, _ in fa.flow.calls_to("networkx.get_node_attributes"):
+        ct = fa.flow.canon(c2, n2)
+        a = list(ct[3]) + [None] * 2
+        name = a[1] if a[1] is not None else dict(ct[4]).get("name")
+        if a[0] == ("param", fa.positional_params[0]):
+            names.append((name, c2))
+    need(names, "anchor vanished: annotate_ez_isomers_cgsmiles does not read node attributes of the molecule", fa)
+    hit = [c2 for name, c2 in names if name == wname and wname is not None and wname[0] == "const"]
+    if hit:
+        obs.append(ob_ok(oid, fa, hit[0], construct="get_node_attributes(molecule, %s)" % show(wname), instance="read-back",
+                         reason="writer and reader of the class marks agree on the attribute name"))
+    else:
+        obs.append(ob_fail(oid, fa, names[0][1], construct="marks written as %s, read as %s" % (show(wname) if wname else "?", ", ".join(show(n) for n, _ in names if n)),
+                           instance="read-back", reason="the stereo annotation does not read the attribute the fragment reader writes"))
+    return obs
+
+
+# ---------------------------------------------------------------------------
+# TT.layer-format (C08): which fragment layer is written as atomistic SMILES
+# ---------------------------------------------------------------------------
+
+def tt_layer_format(repo, tier="quick"):
+    """write_cgsmiles executed abstractly for three fragment layers and both values of last_all_atom: every layer is written
+    once, in order, and only the last one is written in the atomistic format, and only when last_all_atom is set."""
+    from ..absint import Evaluator, Unsupported, Raised
+    fi = repo.function("write_cgsmiles:write_cgsmiles")
+    oid = "TT.layer-format"
+    params = fi.positional_params
+    need(len(params) >= 3 and "last_all_atom" in params, "anchor vanished: write_cgsmiles(molecule_graph, fragments, last_all_atom)", fi)
+    layers = ["layer0", "layer1", "layer2"]
+    bad = []
+    for laa in (True, False):
+        rec = []
+
+        def hook(ev, call, env):
+            f = call.func
+            name = f.id if isinstance(f, ast.Name) else (f.attr if isinstance(f, ast.Attribute) else None)
+            if name == "enumerate" and len(call.args) >= 1:
+                seq = ev.eval(call.args[0], env)
+                start = 0
+                for kw in call.keywords:
+                    if kw.arg == "start":
+                        start = ev.eval(kw.value, env)
+                if len(call.args) > 1:
+                    start = ev.eval(call.args[1], env)
+                return True, [(i + start, x) for i, x in enumerate(seq)]
+            if name == "write_cgsmiles_fragments":
+                frag = ev.eval(call.args[0], env) if call.args else None
+                fmt = True      # the callee's default
+                if len(call.args) > 1:
+                    fmt = ev.eval(call.args[1], env)
+                for kw in call.keywords:
+                    if kw.arg == "smiles_format":
+                        fmt = ev.eval(kw.value, env)
+                    elif kw.arg == "fragment_dict":
+                        frag = ev.eval(kw.value, env)
+                rec.append((frag, bool(ev.truth(fmt))))
+                return True, "{F}"
+            if name == "write_cgsmiles_graph":
+                return True, "{G}"
+            return False, None
+        ev = Evaluator(call_hook=hook)
+        try:
+            ev.run_function(fi.node, {params[0]: "G", params[1]: list(layers), "last_all_atom": laa})
+        except Unsupported as err:
+            raise AnalysisError("write_cgsmiles outside the evaluator's language: %s" % err, fi.where())
+        want = [("layer0", False), ("layer1", False), ("layer2", laa)]
+        if rec != want:
+            bad.append((laa, rec))
+    if bad:
+        return [ob_fail(oid, fi, construct="last_all_atom=%s: layers written as %s" % (laa, rec), instance="layers",
+                        reason="every fragment layer has to be written once, in order, in the coarse format except the last one when last_all_atom is set; "
+                               "the reader interprets the layers by that rule") for laa, rec in bad]
+    return [ob_ok(oid, fi, construct="3 layers x last_all_atom in {True, False}: only the last layer is atomistic, only if last_all_atom", instance="layers",
+                  reason="abstract execution of write_cgsmiles: the format per layer is the one the reader assumes")]
